@@ -267,7 +267,7 @@ func (e *Engine) callUnknown(fr *Frame, st *State, ins ssa.Instruction, cc *ssa.
 	// dynamic call of an unknown function value (user callback)
 	sig := cc.Value.Type().Underlying().(*types.Signature)
 	key := "callback:" + types.TypeString(cc.Value.Type(), func(p *types.Package) string { return p.Name() })
-	if c, ok := e.ifContract[key]; ok {
+	if c, ok := e.ifaceContract(key); ok {
 		return e.applyIfaceContract(fr, st, ins, c, f, args, sig)
 	}
 	if !fr.ghost {
@@ -314,7 +314,7 @@ func (e *Engine) invoke(fr *Frame, st *State, ins ssa.Instruction, recv *Term, i
 		return e.dispatch(fr, st, ins, recv, it, m, args, impls)
 	}
 	key := ifaceKey(it, m.Name())
-	if c, ok := e.ifContract[key]; ok {
+	if c, ok := e.ifaceContract(key); ok {
 		if !fr.ghost {
 			e.safety(fr, st, "safe-nil", ins, tb.Not(tb.Eq(tag, tb.Int(0))))
 		}
@@ -1033,7 +1033,7 @@ func (e *Engine) dispatch(fr *Frame, st *State, ins ssa.Instruction, recv *Term,
 		conds = append(conds, tb.Eq(tag, tb.Int(int64(e.typeTag(t)))))
 	}
 	key := ifaceKey(it, m.Name())
-	abstract, hasAbstract := e.ifContract[key]
+	abstract, hasAbstract := e.ifaceContract(key)
 	if !fr.ghost && !hasAbstract {
 		e.safety(fr, st, "dispatch", ins, tb.Or(conds...))
 	}
@@ -1138,4 +1138,16 @@ func (e *Engine) dispatch(fr *Frame, st *State, ins ssa.Instruction, recv *Term,
 	*st = *merged
 	_ = cond
 	return packResults(res)
+}
+
+// ifaceContract: the abstract contract of an interface method (or function type). Each package
+// states its own; the one of the package whose function is being verified wins.
+func (e *Engine) ifaceContract(key string) (*Contract, bool) {
+	if e.curPkg != "" {
+		if c, ok := e.ifContractPkg[e.curPkg+"\x00"+key]; ok {
+			return c, true
+		}
+	}
+	c, ok := e.ifContract[key]
+	return c, ok
 }
